@@ -164,9 +164,11 @@ package core
 //@ extern func github.com/Masterminds/semver/v3.(*Version).GreaterThanEqual
 //@   requires v != nil && o != nil
 //@   ensures result == !verLess(*v, *o)
+//@ ghost func verParses(s string) bool
 //@ func ParseBlockVersion
 //@   trusted
 //@   ensures result1 == nil ==> result0 != nil && *result0 == blockVer(protocolVersion)
+//@   ensures (result1 == nil) <==> verParses(protocolVersion)
 //@ func TransactionHash
 //@   trusted
 //@   logged
